@@ -1,5 +1,5 @@
 (* C05 - entity state = last-writer-wins replay of creation and property packets.  Statements only. *)
-From RU Require Import Base Types Defs BitReader World WireSpec LwwProofs WorldProofs CreateProofs.
+From RU Require Import Base Types Defs BitReader World WireSpec LwwProofs WorldProofs CreateProofs PlayerProofs.
 From Coq Require Import Lia.
 Open Scope N_scope.
 
@@ -66,6 +66,23 @@ Theorem C05_packets_refine_spec : forall St w pkts evs, replays St w pkts evs ->
   ids_ok (play_packets St w pkts) /\ same (abs (play_packets St w pkts)) (fold_left spec_step evs s).
 Proof. exact packets_refine_spec. Qed.
 Print Assumptions C05_packets_refine_spec.
+
+(* byte level, ALL FOUR packet kinds of the statement - base-player, cell-player, entity creation, property update - in any order and
+   number: the cell-player packet is one update per client-visible property (definition order) of a known entity or the creation of an
+   Avatar with those values; the base-player packet creates the Avatar if the id is new and never touches client properties or types *)
+Theorem C05_history_refines_spec : forall St w pkts evs, history St w pkts evs -> forall s,
+  ids_ok w -> same (abs w) s ->
+  ids_ok (play_packets St w pkts) /\ same (abs (play_packets St w pkts)) (fold_left spec_step evs s).
+Proof. exact history_refines_spec. Qed.
+Print Assumptions C05_history_refines_spec.
+(* ... and the base-player packet makes its id the recording player (known or new id) *)
+Theorem C05_base_player_sets_player : forall St w s id ty e m vs,
+  s_game St <> Wot -> (- 2 ^ 31 <= id < 2 ^ 31)%Z -> length ty = 2%nat -> N.of_nat (length (enc_props (e_base m) vs)) < 2 ^ 32 ->
+  zassoc_get id (w_entities w) = Some e -> assoc_get (en_type e) (s_models St) = Some m -> typed_props (e_base m) vs ->
+  ids_ok w -> same (abs w) s ->
+  let r := step_class St w BasePlayerCreate (enc_base id ty (enc_props (e_base m) vs)) in
+  snd r = None /\ w_player (fst r) = Some id /\ ids_ok (fst r) /\ same (abs (fst r)) s.
+Proof. exact base_player_existing. Qed.
 
 (* non-vacuity: a definition set with one entity type and two properties; create id 7 with one property, update the other, re-create
    id 7 with a different value, update an id that does not exist: the hypotheses hold and the table is what the spec says *)
